@@ -389,6 +389,66 @@ def symlinked_directory(chk: Check, sc: Scratch) -> None:
         site.close()
 
 
+def stalled_requests(chk: Check, sc: Scratch) -> None:
+    """A request that never ends (no line end, no blank line, a body shorter than announced) from a client that stays
+    connected: the configured `timeout` bounds the wait, then what has arrived is answered.  Real server process, real
+    sockets; the verdict is causal where it can be (a complete request on a second connection is answered meanwhile) and
+    the deadline for the stalled one is ten times the configured timeout."""
+    import socket
+    import time
+    from vf import spdriver
+    root = sc.sub("stalled-root")
+    Tree().file("small.txt", "small document\n").file("d/a.txt", "a\n").materialize(root)
+    TIMEOUT = 2
+    for servertype in ("ThreadingTCPServer", "ForkingTCPServer"):
+        sp = spdriver.ServerProcess(conf_overrides={"timeout": str(TIMEOUT)}, root=root, servertype=servertype, tls=False,
+                                    workdir=sc.sub("stalled-" + servertype[:4]), name="c03")
+        sp.start()
+        try:
+            if not sp.wait_ready(30):
+                chk.note_inconclusive("C03 server process did not become ready")
+                return
+            for label, partial in (("gopher selector without line end", b"/small.txt"),
+                                   ("http request without the blank line", b"GET /small.txt HTTP/1.0\r\nHost: x\r\n"),
+                                   ("spartan body shorter than announced", b"verif.example /small.txt 20\r\nabc"),
+                                   ("nothing at all", b"")):
+                s = socket.create_connection(("127.0.0.1", sp.port), timeout=10 * TIMEOUT + 10)
+                t0 = time.monotonic()
+                got, err = b"", None
+                try:
+                    if partial:
+                        s.sendall(partial)
+                    # meanwhile a complete request on another connection is answered at once
+                    other = sp.request(b"/d/a.txt\r\n", timeout=20)
+                    while True:
+                        b = s.recv(65536)
+                        if not b:
+                            break
+                        got += b
+                except socket.timeout:
+                    err = "no answer and no close within %d s (configured timeout: %d s)" % (10 * TIMEOUT + 10, TIMEOUT)
+                except OSError as e:
+                    err = None if got else "connection error %s" % type(e).__name__
+                finally:
+                    s.close()
+                chk.count("stalled_requests")
+                sample = {"servertype": servertype, "client": label, "sent": partial, "reply": got[:120], "configured_timeout_s": TIMEOUT,
+                          "waited_s": round(time.monotonic() - t0, 1), "other_connection_answered": other == b"a\n"}
+                if other != b"a\n":
+                    chk.witness("C03/stalled-client-blocks-others:%s" % servertype, sample)
+                    return
+                if err:
+                    chk.witness("C03/unterminated-request-never-answered", dict(sample, error=err))
+                    return
+                if partial.startswith((b"/small", b"GET")) and b"small document" not in got:
+                    chk.witness("C03/unterminated-request-answered-wrongly", sample)
+                    return
+                chk.case(("stalled", servertype, label), sample)
+        finally:
+            sp.stop()
+            sp.cleanup()
+
+
 def main() -> int:
     chk = Check("C03", "exploration")
     quick = chk.tier == "quick"
@@ -401,6 +461,7 @@ def main() -> int:
                 run_site(chk, sc, i, nhist=10 if quick else 30, histlen=30)
             if quick or chk.args.shard == 0:
                 symlinked_directory(chk, sc)
+                stalled_requests(chk, sc)
     return chk.finish(
         rule="each case = one request sent over a real socket to the real connection handler; distinct "
              "non-trivial = distinct (request class, protocol class that answered, handler class, response "
